@@ -204,6 +204,19 @@ func init() {
 	prims["vSameJSON"] = func(ex *Exec, fr *Frame, site ssa.Instruction, a []Value) Value {
 		return ex.jsonSame(ex.nodeOfIface(fr, site, a[0]), ex.nodeOfIface(fr, site, a[1]), site)
 	}
+	prims["vRandByte"] = func(ex *Exec, fr *Frame, site ssa.Instruction, a []Value) Value {
+		i := ex.concreteInt(a[0], "index", site)
+		k := 0
+		for _, v := range ex.vars {
+			if v.Kind == "rand" {
+				if k == i {
+					return v.T
+				}
+				k++
+			}
+		}
+		return mkBV(SBV8, 0)
+	}
 	prims["vNativeSkip"] = func(ex *Exec, fr *Frame, site ssa.Instruction, a []Value) Value {
 		// the native run cannot observe what this harness observes (e.g. arguments of time.After)
 		ex.nondetEnv++
@@ -287,6 +300,13 @@ func (ex *Exec) doAssert(label string, cond *Term, site ssa.Instruction) {
 		ex.trace = append(ex.trace, TraceEvent{Kind: "assert", Label: label, OK: true})
 		ex.violated = append(ex.violated, rec)
 	default:
+		// cvc5 gave up: a definite unsat from z3 on the same script decides the obligation
+		if x := ex.sol.CrossCheck(neg); x == Unsat {
+			rec.Result = Unsat
+			r = Unsat
+			ex.trace = append(ex.trace, TraceEvent{Kind: "assert", Label: label, OK: true})
+			break
+		}
 		rec.Result = Unknown
 		ex.unknowns = append(ex.unknowns, label+": "+msg)
 		ex.trace = append(ex.trace, TraceEvent{Kind: "assert", Label: label, OK: true, Val: "unknown"})
